@@ -238,6 +238,9 @@ def one_run(ctx, corrs, stock_only=False, dense=False, rs=None, k=None):
         corrs["chain"].add(False, {"between": [prev_op["op"], op["op"]], "when": str(op["when"][0]), "differences": [(p, repr(m), repr(v)) for p, m, v in d[:4]]})
     corrs["chain"].cases += max(0, len(ops) - 1)
     ledger_monitor(ctx, tr, ix)
+    import monitors
+    monitors.marked_at_bar_monitor("C01.3", "STOCK")(ctx, tr, ix)
+    monitors.positions_view_monitor("C01.2", "STOCK")(ctx, tr, ix)
     ctx.stats["trades"] += len([1 for k, _ in tr.events if k == "TRADE"])
     if len(ctx.samples) < 3 and ops:
         op = next((o for o in ops if o["op"] == "apply_trade" and not o["nested"]), ops[0])
